@@ -7,7 +7,7 @@ import Torf.Spec.MagnetHash
 namespace Torf.Magnet
 
 /-- a URL as a constructed magnet holds it: non-empty, valid for `utils.is_url`, spaces already
-    replaced by '+' -/
+    replaced by '+' (every URL a setter accepts is stored like this: `C13_stored_urls_ok`) -/
 def urlOk (isUrl : Str → Bool) (u : Str) : Bool := isUrl u && !u.isEmpty && !u.contains ' '
 
 /-- a keyword the property speaks about: non-empty (D13c) and without whitespace -/
